@@ -380,7 +380,8 @@ Inductive outcome :=
 | ROk (tag : Z)        (* the data that was read *)
 | RNotFound            (* ValueError of _check_name *)
 | RNoMember            (* KeyError: no such member in the archive *)
-| RBadFile.            (* the file is not of the type its name announces *)
+| RBadFile             (* the file is not of the type its name announces *)
+| ROther.              (* never produced by the model: any other error of the implementation *)
 
 (* _check_name: the name itself when it exists, else the first existing <stem>.<ext> *)
 Definition check_name (fs : fsys) (name : string) : option string :=
@@ -481,17 +482,4 @@ Definition h_ok (c : hcase) : bool :=
       | Some arc' => outcome_eqb (read_archive arc' rp) eout
       | None => outcome_eqb (read_archive arc rp) eout
       end
-  end.
-
-(* the same comparison against the PINNED code (used by the harness only to
-   classify a disagreement: which of the two recorded defects is present) *)
-Definition h_ok_pinned (c : hcase) : bool :=
-  match c with
-  | HParse header expect => dict_eqb (header2comment_pinned header) expect
-  | HRead txt ecomment ecols =>
-      dict_eqb (read_comment_pinned txt) ecomment && list_eqb String.eqb (read_colnames txt) ecols
-  | HFiles fs m name tag efs rname eout =>
-      let fs' := write_file_pinned m name tag fs in
-      fsys_eqb (sort_fs fs') efs && outcome_eqb (read_file fs' rname) eout
-  | _ => h_ok c
   end.
